@@ -63,6 +63,7 @@ type Spec struct {
 	Bounds     map[string]interface{} `json:"bounds"`
 	Rule       string        `json:"rule"`
 	TimeoutMs  int           `json:"solver_timeout_ms"`
+	Solver     string        `json:"solver"`
 	WallS      map[string]int `json:"wall_guard_s"`
 }
 
@@ -261,7 +262,7 @@ func checkMain(args []string) int {
 	}
 
 	cfg := interp.LoadConfig{Dir: spec.Dir, Patterns: spec.Patterns, Tags: spec.Tags, Overlay: overlay,
-		InterpPkgs: spec.InterpPkgs, Env: []string{"GOFLAGS=-mod=mod", "GOPROXY=off", "GOSUMDB=off", "GOTOOLCHAIN=local"}}
+		InterpPkgs: spec.InterpPkgs, Solver: spec.Solver, Env: []string{"GOFLAGS=-mod=mod", "GOPROXY=off", "GOSUMDB=off", "GOTOOLCHAIN=local"}}
 
 	// start workers
 	nw := *jobs
